@@ -6,7 +6,7 @@ rsync -a --exclude .git /repo/ $d/
 if ! (cd $d && patch -p1 -s < "$patch"); then echo "PATCH DOES NOT APPLY: $patch"; rm -rf $d; exit 3; fi
 rc=0
 for p in "$@"; do
-  /verif/bin/rtcheck -property $p -tier quick -repo $d -no-evidence > $d/.out 2>&1; r=$?
+  ${RTCHECK:-/verif/bin/rtcheck} -property $p -tier quick -repo $d -verif /verif -no-evidence > $d/.out 2>&1; r=$?
   if [ $r -eq 0 ]; then echo "  $p: quiet (ok)";
   elif [ $r -eq 1 ]; then echo "  $p: FALSE ALARM"; grep -A2 '  FAILED' $d/.out | grep -v '^--' | cut -c1-260 | head -${LINES_MAX:-12}; rc=1;
   elif grep -q "^UNDECIDED property=" $d/.out; then echo "  $p: UNDECIDED"; grep -A2 '  UNRECOGNISED' $d/.out | grep -v '^--' | cut -c1-260 | head -${LINES_MAX:-12}; rc=1;
